@@ -424,6 +424,7 @@ func (ex *Exec) builtin(fr *frame, b *ssa.Builtin, args []Value, cc *ssa.CallCom
 	case "delete":
 		m := args[0].(*Map)
 		if m != nil {
+			ex.sharedMapWrite(fr, m)
 			ex.mapDelete(m, args[1])
 		}
 		return nil
@@ -497,6 +498,9 @@ func (ex *Exec) appendBuiltin(fr *frame, s, t Value) Value {
 			x = &SliceV{A: &Array{}}
 		}
 		if x.Len+y.Len <= x.Cap {
+			if ex.shared != nil && ex.shared.on && ex.shared.arrs[x.A] {
+				ex.noteSharedWrite(fr, "the spare capacity of a slice that outlives the request (append in place)")
+			}
 			for i := 0; i < y.Len; i++ {
 				storeInto(x.A.E[x.Off+x.Len+i], y.A.E[y.Off+i].V)
 			}
